@@ -538,23 +538,15 @@ theorem setLabel_all (s : Store) (name : Name) (label : Nat) (v : Operand) :
     (∀ e, (setLabel s name label v).2 = .raised e → e ≠ .valueConv → (setLabel s name label v).1 = s) ∧
     (setLabel s name label v).1.attrs = s.attrs ∧ (setLabel s name label v).1.strict = s.strict := by
   unfold setLabel
-  cases hl : locate s label with
-  | missing => exact ⟨Ext.refl s, id, fun _ _ _ => rfl, rfl, rfl⟩
-  | pos p =>
+  cases hg : s.get name with
+  | none => exact ⟨Ext.refl s, id, fun _ _ _ => rfl, rfl, rfl⟩
+  | some ser =>
     dsimp only
-    cases hg : s.get name with
-    | none => exact ⟨Ext.refl s, id, fun _ _ _ => rfl, rfl, rfl⟩
-    | some ser => exact assignLoc_all hg _ v
-  | nonIntPos p =>
-    dsimp only
-    cases hg : s.get name with
-    | none => exact ⟨Ext.refl s, id, fun _ _ _ => rfl, rfl, rfl⟩
-    | some ser => exact assignLoc_all hg _ v
-  | slice a b =>
-    dsimp only
-    cases hg : s.get name with
-    | none => exact ⟨Ext.refl s, id, fun _ _ _ => rfl, rfl, rfl⟩
-    | some ser => exact assignLoc_all hg _ v
+    cases hl : locate s label with
+    | missing => exact ⟨Ext.refl s, id, fun _ _ _ => rfl, rfl, rfl⟩
+    | pos p => exact assignLoc_all hg _ v
+    | nonIntPos p => exact assignLoc_all hg _ v
+    | slice a b => exact assignLoc_all hg _ v
 
 theorem setLabelSlice_all (s : Store) (name : Name) (a b : Option Nat) (st : Option Int) (v : Operand) :
     Ext s (setLabelSlice s name a b st v).1 ∧ (Inv s → Inv (setLabelSlice s name a b st v).1) ∧
@@ -562,14 +554,14 @@ theorem setLabelSlice_all (s : Store) (name : Name) (a b : Option Nat) (st : Opt
       (setLabelSlice s name a b st v).1 = s) ∧
     (setLabelSlice s name a b st v).1.attrs = s.attrs ∧ (setLabelSlice s name a b st v).1.strict = s.strict := by
   unfold setLabelSlice
-  cases hr : resolveSlice s a b st with
-  | error e => exact ⟨Ext.refl s, id, fun _ _ _ => rfl, rfl, rfl⟩
-  | ok t =>
-    obtain ⟨lo, hi, step⟩ := t
+  cases hg : s.get name with
+  | none => exact ⟨Ext.refl s, id, fun _ _ _ => rfl, rfl, rfl⟩
+  | some ser =>
     dsimp only
-    cases hg : s.get name with
-    | none => exact ⟨Ext.refl s, id, fun _ _ _ => rfl, rfl, rfl⟩
-    | some ser =>
+    cases hr : resolveSlice s a b st with
+    | error e => exact ⟨Ext.refl s, id, fun _ _ _ => rfl, rfl, rfl⟩
+    | ok t =>
+      obtain ⟨lo, hi, step⟩ := t
       dsimp only
       cases hp : pySliceAny (firstDim ser) (some ↑lo) (some ↑hi) (some step) with
       | none => exact ⟨Ext.refl s, id, fun _ _ _ => rfl, rfl, rfl⟩
